@@ -50,7 +50,7 @@ def _feed_scalar(h, v):
         raise TypeError(type(v))
 
 
-def _walk(h, obj, seen, exclude, depth=0):
+def _walk(h, obj, seen, exclude, depth=0, deep=frozenset()):
     if depth > 60:
         raise RecursionError('digest walk too deep')
     if obj is None:
@@ -75,7 +75,7 @@ def _walk(h, obj, seen, exclude, depth=0):
         if obj.dtype.kind == 'O':
             h.update(b'AO' + str(obj.shape).encode())
             for x in obj.ravel():
-                _walk(h, x, seen, exclude, depth + 1)
+                _walk(h, x, seen, exclude, depth + 1, deep)
             return
         a = np.ascontiguousarray(obj)
         kind = obj.dtype.kind
@@ -104,7 +104,7 @@ def _walk(h, obj, seen, exclude, depth=0):
     if isinstance(obj, (list, tuple)):
         h.update(b'L' + str(len(obj)).encode())
         for x in obj:
-            _walk(h, x, seen, exclude, depth + 1)
+            _walk(h, x, seen, exclude, depth + 1, deep)
         return
     if isinstance(obj, dict):
         h.update(b'M' + str(len(obj)).encode())
@@ -112,12 +112,12 @@ def _walk(h, obj, seen, exclude, depth=0):
             if k in exclude and depth == 0:
                 continue
             h.update(b'k' + repr(k).encode())
-            _walk(h, obj[k], seen, exclude, depth + 1)
+            _walk(h, obj[k], seen, exclude, depth + 1, deep)
         return
     if isinstance(obj, (set, frozenset)):
         h.update(b'S' + str(len(obj)).encode())
         for x in sorted(obj, key=repr):
-            _walk(h, x, seen, exclude, depth + 1)
+            _walk(h, x, seen, exclude, depth + 1, deep)
         return
     if isinstance(obj, functools.partial) or callable(obj) and not hasattr(obj, '__dict__'):
         h.update(b'F' + getattr(obj, '__name__', type(obj).__name__).encode())
@@ -133,10 +133,10 @@ def _walk(h, obj, seen, exclude, depth=0):
         h.update(b'O' + type(obj).__name__.encode())
         d = obj.__dict__
         for k in sorted(d):
-            if depth == 0 and k in exclude:
+            if (depth == 0 and k in exclude) or k in deep:
                 continue
             h.update(b'k' + k.encode())
-            _walk(h, d[k], seen, exclude, depth + 1)
+            _walk(h, d[k], seen, exclude, depth + 1, deep)
         return
     if callable(obj):
         h.update(b'F' + getattr(obj, '__name__', type(obj).__name__).encode())
@@ -162,11 +162,12 @@ def _jsonable(x):
     return x
 
 
-def digest(obj, exclude=()):
+def digest(obj, exclude=(), deep=()):
     """sha256 of a generic structural walk (arrays by kind+shape+bytes, scalars by value,
-    generators by state, objects recursively through __dict__, cycles by first-visit index)."""
+    generators by state, objects recursively through __dict__, cycles by first-visit index).
+    exclude: attribute names skipped at the top level; deep: attribute names skipped at every level."""
     h = _h()
-    _walk(h, obj, {}, set(exclude))
+    _walk(h, obj, {}, set(exclude), 0, frozenset(deep))
     return h.hexdigest()
 
 
